@@ -30,7 +30,8 @@ def settings():
     vals = [None, -1, 0, 1, 2, 3, 4]
     out = [None] + list(range(-1, 5))
     out += [{"t": [a, b]} for a in vals for b in vals]
-    out += [{"l": [1, 2]}, {"l": [2, 1]}, "", "abc", "(1,2)", 0.0, 2.0, {"t": [1.0, 2]},
+    out += [{"l": [a, b]} for a in vals for b in vals]       # the list form of every pair
+    out += [{"l": []}, {"l": [1]}, {"l": [1, 2, 3]}, "", "abc", "(1,2)", 0.0, 2.0, {"t": [1.0, 2]},
             {"t": []}, {"t": [1]}, {"t": [1, 2, 3]}]
     return out
 
